@@ -167,7 +167,15 @@ def div_terms(a, b):
         if c == 0:
             raise NotModelled('symbolic value divided by zero')
         return a * z3.RealVal(str(1 / c))
-    return uf('DIV', R, R, R)(a, b)
+    t = uf('DIV', R, R, R)(a, b)
+    if ENG is not None:
+        key = ('div-inst', t.get_id())
+        if key not in ENG.decided:
+            ENG.decided[key] = True
+            # exact values at small integer divisors (counts, multiplicities)
+            for k in (1, 2, 3, 4):
+                ENG.add(z3.Implies(b == k, t == a * z3.RealVal(1) / k))
+    return t
 
 
 class SV(object):
@@ -758,7 +766,8 @@ class Engine(object):
         self.notes.append('INCONCLUSIVE %s: solver answered unknown' % label)
         return None
 
-    def require_nra(self, alg, goal, label, detail=None, timeout_ms=30000):
+    def require_nra(self, alg, goal, label, detail=None, timeout_ms=None):
+        timeout_ms = timeout_ms or getattr(self, 'nra_timeout_ms', 30000)
         """Discharge an exp-domain obligation on the UF-free pool (nlsat)."""
         from . import nra
         self.stats['obligations'] += 1
